@@ -61,15 +61,21 @@ Definition get_cstate (bl : list blob) : dec cstate :=
 
 Record call_case := CallCase {
   cc_dis : bool; cc_cert : cert; cc_cs : cstate; cc_st : option blob; cc_env : env; cc_now : Z;
-  cc_obs : result
+  cc_obs : result;
+  cc_panic : bool    (* the real call did not return: it panicked *)
 }.
+
+(** S2 at its plainest: whatever the responder says, the code comes back. Of the model this holds
+    by construction ([staple] and [step] are total functions); of the implementation it is
+    observed: every call into the code under test runs under recover(). *)
+Definition returned (panicked : bool) : bool := negb panicked.
 
 Definition get_call_case (bl : list blob) (cl : list cert) : dec call_case :=
   d <- get_bool ;; c <- get_ref cl ;; cs <- get_cstate bl ;; st <- get_opt (get_ref bl) ;;
   e <- get_env bl ;; now <- get_z ;;
   cs' <- get_cstate bl ;; st' <- get_opt (get_ref bl) ;; seen <- get_bool ;; err <- get_bool ;;
-  ops <- get_list get_sop ;;
-  ret (CallCase d c cs st e now (Res cs' st' seen seen err ops false)).
+  ops <- get_list get_sop ;; pn <- get_bool ;;
+  ret (CallCase d c cs st e now (Res cs' st' seen seen err ops false) pn).
 
 (** association list with default *)
 Fixpoint alookup {A} (d : A) (l : list (Z * A)) (k : Z) : A :=
@@ -124,14 +130,16 @@ Definition get_served (bl : list blob) : dec served_obs :=
     certificate earlier in the history (seen as a successful Store of those bytes under ANY ocsp/
     key when it attached them) and which the harness has not touched since *)
 Record hstep := HStep { hs_op : op; hs_own : option blob; hs_ret : option (Z * option blob);
+                        hs_panic : bool;   (* the operation of the real code panicked *)
                         hs_post : sys; hs_calls : list call; hs_served : served_obs }.
 
 (** [hs_ret]: for a handshake, what GetCertificate returned to it (certificate, staple) *)
 Definition get_hstep (bl : list blob) (cl : list cert) : dec hstep :=
   o <- get_op bl cl ;; ow <- get_opt (get_ref bl) ;;
   rt <- get_opt (c <- get_z ;; s <- get_opt (get_ref bl) ;; ret (c, s)) ;;
+  pn <- get_bool ;;
   s <- get_sys bl cl ;; c <- get_calls ;;
-  sv <- get_served bl ;; ret (HStep o ow rt s c sv).
+  sv <- get_served bl ;; ret (HStep o ow rt pn s c sv).
 
 Definition is_hs (k : mkind) : bool := match k with KHandshake => true | _ => false end.
 
@@ -248,8 +256,9 @@ Definition served_consistent (post : sys) (o : served_obs) : bool := served_eqb 
 
 Definition check_call (c : call_case) : Z :=
   let m := staple (cc_dis c) (cc_cert c) (cc_cs c) (cc_st c) (cc_env c) (cc_now c) in
-  code (result_eqb m (cc_obs c))
-       (spec_call (cc_dis c) (cc_cert c) (cc_cs c) (cc_st c) (cc_env c) (cc_now c) (cc_obs c)).
+  code (result_eqb m (cc_obs c) && returned (cc_panic c))
+       (spec_call (cc_dis c) (cc_cert c) (cc_cs c) (cc_st c) (cc_env c) (cc_now c) (cc_obs c) &&
+        returned (cc_panic c)).
 
 (** histories: one-step conformance from the implementation's own previous observation *)
 Fixpoint check_hist (certs : list cert) (pre : sys) (l : list hstep) (agree spec : bool) : bool * bool :=
@@ -260,10 +269,10 @@ Fixpoint check_hist (certs : list cert) (pre : sys) (l : list hstep) (agree spec
       let a := cache_eqb (cache mpost) (cache (hs_post h)) &&
                store_eqb certs (stor mpost) (stor (hs_post h)) &&
                calls_eqb mcalls (hs_calls h) && served_eqb (cache mpost) (hs_served h) &&
-               ret_eqb (hs_expected pre (hs_op h)) (hs_ret h) in
+               ret_eqb (hs_expected pre (hs_op h)) (hs_ret h) && returned (hs_panic h) in
       let s := spec_step pre (hs_op h) (hs_post h) (hs_calls h) &&
                served_consistent (hs_post h) (hs_served h) && own_reuse_step h &&
-               ret_ok pre (hs_op h) (hs_ret h) in
+               ret_ok pre (hs_op h) (hs_ret h) && returned (hs_panic h) in
       check_hist certs (hs_post h) r (agree && a) (spec && s)
   end.
 
@@ -302,6 +311,7 @@ Fixpoint explain_hist (certs : list cert) (pre : sys) (l : list hstep) : list Z 
        zb (step_revoked pre (hs_op h) (hs_post h) (hs_calls h));
        zb (step_persist pre (hs_op h) (hs_post h)); zb (own_reuse_step h);
        zb (ret_eqb (hs_expected pre (hs_op h)) (hs_ret h)); zb (ret_ok pre (hs_op h) (hs_ret h));
+       zb (returned (hs_panic h));
        Z.of_nat (length (cache mpost))] ++
       flat_map (fun en => [c_id (en_cert en); zb (en_managed en); oid (cs_staple (en_cs en));
                            ost (cs_ocsp (en_cs en))]) (cache mpost) ++
@@ -320,7 +330,7 @@ Definition explain_line (l : list Z) : list Z :=
       [-7; zb (call_sound (cc_cert c) (cc_cs c) (cc_now c) (cc_obs c));
        zb (call_reuse (cc_dis c) (cc_cert c) (cc_st c) (cc_env c) (cc_now c) (cc_obs c));
        zb (call_corrupt (cc_dis c) (cc_cert c) (cc_st c) (cc_env c) (cc_obs c));
-       zb (call_persist (cc_cert c) (cc_st c) (cc_now c) (cc_obs c))]
+       zb (call_persist (cc_cert c) (cc_st c) (cc_now c) (cc_obs c)); zb (returned (cc_panic c))]
   | Some (CHist certs steps) => explain_hist certs (Sys [] []) steps
   | None => []
   end.
